@@ -31,6 +31,7 @@ class CGen:
         self.ptrs = []  # int * globals initialised with an address
         self.strtabs = []  # char *t[n] = {"..", ..}
         self.fptrs = []  # (name, nparams)
+        self.extras = []  # struct fields, enum constants, typed globals
 
     # ---------------------------------------------------------------- exprs
     def const(self):
@@ -69,6 +70,8 @@ class CGen:
                 return f"{a}[({idx}) & {n - 1}]"
             if k == 3 and self.ptrs:
                 return f"(*{ch.pick(self.ptrs, 'ptr')})"
+            if k == 1 and self.extras and ch.chance(1, 2, "extraleaf"):
+                return ch.pick(self.extras, "extra")
             if k == 2 and self.strtabs:
                 t, n = ch.pick(self.strtabs, "strtab")
                 idx = ch.pick(vars_, "stridx") if vars_ else "1"
@@ -79,6 +82,10 @@ class CGen:
             k = ch.weighted([8, 0, 0, 0, 2], "exprkind")
         else:
             k = ch.weighted([8, 2, 1, 2, 1], "exprkind")
+        if self.profile == "rich" and ch.chance(1, 16, "ternary"):
+            return (f"({self.expr(vars_, depth - 1)} ? "
+                    f"{self.expr(vars_, depth - 1)} : "
+                    f"{self.expr(vars_, depth - 1)})")
         if k == 0:
             op = ch.pick(self.binops(), "binop")
             lhs = self.expr(vars_, depth - 1)
@@ -137,10 +144,28 @@ class CGen:
             elif k == 2:
                 iv = ch.pick(vars_, "loopvar")
                 lim = 1 + ch.draw(9, "lim")
-                out.append(f"{pad}for ({iv} = 0; {iv} < {lim}; {iv} += 1) {{")
                 body_vars = [v for v in vars_ if v != iv] or vars_
-                out += self.block(body_vars, depth - 1, indent + 1)
-                out.append(f"{pad}}}")
+                form = ch.weighted([4, 1, 1], "loopform") \
+                    if self.profile == "rich" else 0
+                if form == 0:
+                    out.append(f"{pad}for ({iv} = 0; {iv} < {lim}; "
+                               f"{iv} += 1) {{")
+                    out += self.block(body_vars, depth - 1, indent + 1)
+                    out.append(f"{pad}}}")
+                elif form == 1:
+                    out.append(f"{pad}{iv} = {lim};")
+                    out.append(f"{pad}while ({iv} > 0) {{")
+                    out += self.block(body_vars, depth - 1, indent + 1)
+                    out.append(f"{pad}  {iv} -= 1;")
+                    out.append(f"{pad}  if ({self.expr(body_vars, 1)} == 77) "
+                               f"break;")
+                    out.append(f"{pad}}}")
+                else:
+                    out.append(f"{pad}{iv} = 0;")
+                    out.append(f"{pad}do {{")
+                    out += self.block(body_vars, depth - 1, indent + 1)
+                    out.append(f"{pad}  {iv} += 1;")
+                    out.append(f"{pad}}} while ({iv} < {lim});")
             elif k == 3:
                 out.append(f"{pad}switch ({self.expr(vars_, 1)} & 3) {{")
                 for c in range(1 + ch.draw(3, "ncase")):
@@ -176,6 +201,13 @@ class CGen:
         for v in locals_:
             out.append(f"  int {v} = {self.expr(vars_, 2)};")
             vars_.append(v)
+        if self.profile == "rich":
+            for j in range(ch.weighted([4, 2, 1], "nstatic")):
+                init = f" = {ch.draw(100, 'staticinit')}" \
+                    if ch.chance(1, 2, "hasstaticinit") else ""
+                out.append(f"  static int s{j}{init};")
+                out.append(f"  s{j} += {ch.pick(vars_, 'staticsrc') if vars_ else 1};")
+                vars_.append(f"s{j}")
         out += self.block(vars_, 2 if not tiny else 1, 1)
         # keep everything live until the end: pressure
         out.append("  return " + " + ".join(vars_) + ";")
@@ -192,6 +224,17 @@ class CGen:
             init = f" = {self.const()}" if ch.chance(1, 2, "ginit") else ""
             out.append(f"int {gp}{i}{init};")
             self.globals_.append(f"{gp}{i}")
+        if self.profile == "rich" and ch.chance(1, 2, "aggregates"):
+            out.append("enum E0 { EA, EB = 7, EC };")
+            out.append("typedef struct { int x; char c; int y; } rec_t;")
+            out.append(f"rec_t r0 = {{{self.const()}, 2, {self.const()}}};")
+            out.append("rec_t ra[2];")
+            out.append("union U0 { int i; char c[4]; };")
+            out.append("union U0 u0;")
+            out.append(f"short h0 = {ch.draw(1000, 'shortinit')};")
+            out.append("unsigned char uc0 = 200;")
+            self.extras += ["EB", "EC", "r0.x", "r0.y", "r0.c", "ra[1].y",
+                            "u0.c[1]", "u0.i", "h0", "uc0"]
         if self.pointers:
             # data relocations: globals initialised with addresses
             for i, g in enumerate(self.globals_[: ch.draw(3, "nptr")]):
